@@ -51,10 +51,19 @@ def make_plan(seed: int, tier: str, opts: dict) -> dict:
             ep["nsteps"] = r.randint(3, 6)
             ep["rtf"] = 1
     do_compiled = (not wall) and r.random() < opts.get("compiled_p", 0.4)
+    if do_compiled and r.random() < 0.6:
+        # ragged multi-episode experiment for the compiled half: one or two more fully recorded episodes of other lengths
+        for _ in range(r.choice([1, 2])):
+            ep = driver.gen_episode(r, 0, api="gym", open_loop=spec["open_loop"], nsteps=max(2, nsteps + r.choice([-3, -2, 2, 3, 5])), endings=("stop",), override_p=0.0)
+            st = {f: True for f in FIELDS}
+            st["max_records"] = 20000
+            ep["record_settings"] = st
+            ep["for_graph"] = True
+            eps.append(ep)
     cc = None
     if do_compiled:
         cc = dict(mode=r.choice(compiled.MODES), prune=r.random() < 0.5, api=r.choice(["rollout_carry", "run_jit", "gym_jit"]),
-                  record={f: r.random() < 0.6 for f in FIELDS}, starting_step=r.choice([0, 0, "mid"]))
+                  record={f: r.random() < 0.6 for f in FIELDS}, starting_step=r.choice([0, 0, "mid"]), episode=r.randrange(3))
     for ep in eps:
         ep["until_active"] = True
     return dict(spec=spec, seed=seed, episodes=eps, clock="wall" if wall else "sim", line_rate=0.0, compile=cc)
@@ -189,14 +198,16 @@ def run_plan(plan: dict, replay=None) -> dict:
     c_rows = 0
     if cc and not viol and ref.record is not None:
         sup = nodes[sup_name]
-        raw = compiled.experiment_graph([ref.record])
+        graph_eps = [ref] + [eo for eo in ro.episodes if eo.plan.get("for_graph") and eo.record is not None]
+        raw = compiled.experiment_graph([eo.record for eo in graph_eps])
         G = compiled.build_graph(nodes, sup, raw, mode=cc["mode"], prune=cc["prune"])
+        e_run = cc.get("episode", 0) % len(graph_eps)  # which episode of the (possibly ragged) experiment is executed
         s0 = 0 if cc.get("starting_step", 0) == 0 else max(1, (G.max_steps + 1) // 2)  # episodes may legally be started in the middle
         n = max(1, G.max_steps - s0)
         probes.clear_trace()
-        out0, _ = compiled.drive(G, compiled.init_state(G, ref.gs0, 0, starting_step=s0), cc["api"], n)
+        out0, _ = compiled.drive(G, compiled.init_state(G, ref.gs0, e_run, starting_step=s0), cc["api"], n)
         ev0 = probes.take_trace()
-        out1, _ = compiled.drive(G, compiled.init_state(G, ref.gs0, 0, record=cc["record"], starting_step=s0), cc["api"], n)
+        out1, _ = compiled.drive(G, compiled.init_state(G, ref.gs0, e_run, record=cc["record"], starting_step=s0), cc["api"], n)
         ev1 = probes.take_trace()
         if [(e["node"], e["seq"], e["h0"], e["h1"]) for e in ev0] != [(e["node"], e["seq"], e["h0"], e["h1"]) for e in ev1]:
             viol.append(dict(clause="c13-compiled-recording-changed-the-execution", signature="c13-comp-exec", compile=cc))
@@ -207,6 +218,12 @@ def run_plan(plan: dict, replay=None) -> dict:
             viol.append(dict(clause="c13-compiled-final-state-differs-with-recording", signature="c13-comp-state", compile=cc))
         crec = out1.aux.get("record")
         ev_idx, _ = index_events(ev1)
+        if crec is not None:
+            for (ni, _e, k) in ev_idx:
+                rows = len(onp.asarray(crec.nodes[names[ni]].steps.seq))
+                if k >= rows:
+                    viol.append(dict(clause="c13-compiled-executed-step-has-no-row-in-the-record", signature="c13-comp-norow", node=names[ni], tick=k, rows=rows, episode=e_run, compile=cc))
+                    break
         for nme in (names if crec is not None else ()):
             steps = crec.nodes[nme].steps
             seqs = onp.asarray(steps.seq)
@@ -215,7 +232,7 @@ def run_plan(plan: dict, replay=None) -> dict:
                 if (getattr(steps, f) is not None) != bool(cc["record"][f]):
                     viol.append(dict(clause="c13-record-contains-exactly-the-requested-fields", signature="c13-fields", runtime="compiled", node=nme, field=f, compile=cc))
             for k in range(len(seqs)):
-                ev = ev_idx.get((names.index(nme), 0, k))
+                ev = ev_idx.get((names.index(nme), e_run, k))
                 if ev is None:
                     if seqs[k] != -1 and not (nme == sup_name):
                         viol.append(dict(clause="c13-compiled-row-never-executed-is-not--1", signature="c13-comp-unexec", node=nme, tick=k, seq=int(seqs[k]), compile=cc))
